@@ -173,6 +173,23 @@ mod addrsort {
         assert_eq!(real_sort(&list, IpVersion::from_binding(None, None))[0], p[2]);
     }
 
+    // ---- pref.from_binding, boundary values: a wildcard local address (0.0.0.0 / ::) IS a bound local address - the property
+    // says "IPv6 unless only an IPv4 local address is bound", not "unless only a concrete one" (the socket of every attempt of
+    // that family is bound to it all the same, `bind_local_address`) ----
+    #[test]
+    fn from_binding_wildcards() {
+        let (any4, any6) = (Some(Ipv4Addr::UNSPECIFIED), Some(Ipv6Addr::UNSPECIFIED));
+        let (lo4, lo6) = (Some(Ipv4Addr::LOCALHOST), Some(Ipv6Addr::LOCALHOST));
+        assert_eq!(IpVersion::from_binding(any4, None), Some(IpVersion::V4));
+        assert_eq!(IpVersion::from_binding(None, any6), Some(IpVersion::V6));
+        assert_eq!(IpVersion::from_binding(any4, any6), Some(IpVersion::V6));
+        assert_eq!(IpVersion::from_binding(lo4, any6), Some(IpVersion::V6));
+        assert_eq!(IpVersion::from_binding(any4, lo6), Some(IpVersion::V6));
+        for b in [Some(Ipv4Addr::BROADCAST), Some(Ipv4Addr::new(192, 0, 2, 1))] {
+            assert_eq!(IpVersion::from_binding(b, None), Some(IpVersion::V4));
+        }
+    }
+
     // ---- sort.addrs.front ----
     #[test]
     fn pop_takes_from_the_front() {
@@ -265,6 +282,32 @@ mod addrsort {
                 c.local_address_ipv6 = Some(Ipv6Addr::LOCALHOST);
             });
             assert_eq!(winner(&t, vec![a4, a6]).await, a6);
+        }
+
+        /// conn.sorted_list_is_used / pref.from_binding at the boundary values of the configuration (C16-r4m2: `connecting`
+        /// filtered wildcard local addresses out of the arguments of `from_binding`): the family that is tried first is
+        /// "IPv6 unless only an IPv4 local address is bound", and 0.0.0.0 / :: are bound local addresses like any other.
+        #[tokio::test]
+        async fn wildcard_local_addresses_count_as_bound() {
+            let Some((l4, l6)) = listeners().await else { return };
+            let (a4, a6) = (l4.local_addr().unwrap(), l6.local_addr().unwrap());
+            let (any4, any6) = (Ipv4Addr::UNSPECIFIED, Ipv6Addr::UNSPECIFIED);
+            for (v4, v6, want, what) in [
+                (Some(any4), None, a4, "only 0.0.0.0 bound: IPv4 first"),
+                (Some(Ipv4Addr::LOCALHOST), Some(any6), a6, "a concrete IPv4 address and :: bound: IPv6 first"),
+                (None, Some(any6), a6, "only :: bound: IPv6 first"),
+                (Some(any4), Some(any6), a6, "0.0.0.0 and :: bound: IPv6 first"),
+                (Some(any4), Some(Ipv6Addr::LOCALHOST), a6, "0.0.0.0 and a concrete IPv6 address bound: IPv6 first"),
+            ] {
+                let t = transport(|c| {
+                    c.happy_eyeballs_timeout = Some(Duration::from_secs(8));
+                    c.local_address_ipv4 = v4;
+                    c.local_address_ipv6 = v6;
+                });
+                for order in [vec![a4, a6], vec![a6, a4]] {
+                    assert_eq!(winner(&t, order.clone()).await, want, "{what} (resolver order {order:?})");
+                }
+            }
         }
 
         /// a resolver that answers every host with the same addresses, all with port 0 (as a resolver does)
